@@ -20,12 +20,16 @@ import (
 	"bytes"
 	"fmt"
 	"math/rand"
+	"net"
+	"net/http"
+	"net/http/httptest"
 	"sort"
 	"strings"
 	"sync"
 	"testing"
 	"time"
 
+	"git.torproject.org/pluggable-transports/snowflake.git/v2/common/amp"
 	"git.torproject.org/pluggable-transports/snowflake.git/v2/common/messages"
 	vh "git.torproject.org/pluggable-transports/snowflake.git/v2/common/zzverif"
 	"github.com/prometheus/client_golang/prometheus"
@@ -1175,7 +1179,89 @@ func bcBurstWhileLocked(t *testing.T, inst *bcInst) string {
 	return desc
 }
 
+// a client that goes away: its request arrives through the real HTTP handlers (POST and AMP GET), is matched, and
+// the client then drops its connection before any answer exists. Whatever the handler makes of the broken
+// connection, the registration of the matched proxy must be cleaned up (at the client timeout at the latest)
+func bcClientGoesAway(t *testing.T, inst *bcInst) string {
+	desc := "two unrestricted polls; a POST /client and a GET /amp/client/ request through the real handlers are matched; both clients close their connections 1 s later; no answer is ever posted"
+	mux := http.NewServeMux()
+	mux.Handle("/client", SnowflakeHandler{inst.ipc, clientOffers})
+	mux.Handle("/amp/client/", SnowflakeHandler{inst.ipc, ampClientOffers})
+	srv := httptest.NewServer(mux)
+	defer srv.Close()
+	addr := strings.TrimPrefix(srv.URL, "http://")
+	p1 := &bcReq{kind: 'P', id: 10, wireNat: "unrestricted", nat: "unrestricted"}
+	p2 := &bcReq{kind: 'P', id: 11, wireNat: "unrestricted", nat: "unrestricted"}
+	inst.start(p1)
+	inst.start(p2)
+	bcWait(func() bool { hu, hr, _, _ := inst.counts(); return hu+hr == 2 }, 5*time.Second)
+	body, _ := (&messages.ClientPollRequest{Offer: "offer-150", NAT: "unknown"}).EncodeClientPollRequest()
+	ampBody, _ := (&messages.ClientPollRequest{Offer: "offer-151", NAT: "unknown"}).EncodeClientPollRequest()
+	raws := [][]byte{
+		[]byte(fmt.Sprintf("POST /client HTTP/1.1\r\nHost: x\r\nContent-Length: %d\r\n\r\n%s", len(body), body)),
+		[]byte("GET /amp/client/" + amp.EncodePath(ampBody) + " HTTP/1.1\r\nHost: x\r\n\r\n"),
+	}
+	var conns []net.Conn
+	for _, raw := range raws {
+		c, err := net.Dial("tcp", addr)
+		if err != nil {
+			return desc + " (cannot connect: " + err.Error() + ")"
+		}
+		c.Write(raw)
+		conns = append(conns, c)
+	}
+	bcWait(func() bool { return p1.isDone() && p2.isDone() }, 5*time.Second)
+	time.Sleep(time.Second)
+	for _, c := range conns {
+		c.Close()
+	}
+	// the handlers are still waiting for an answer (or have noticed the broken connection); give them the client
+	// timeout and a little more
+	time.Sleep(time.Duration(ClientTimeout)*time.Second + 1500*time.Millisecond)
+	if !p1.isDone() || !p2.isDone() {
+		desc += " (the polls were not handed the offers)"
+	}
+	return desc
+}
+
+// the bridge list is reloaded (SIGHUP) between a client's fingerprint check and the moment its offer is handed to a
+// poll: the harness holds the matching lock, lets the client (naming bridge 7) pass its check and queue on the lock,
+// installs a list without bridge 7, and releases the lock. Whatever happens to the two requests then, no poll may
+// be handed this offer with the relay URL of another bridge.
+func bcBridgeReloaded(t *testing.T, inst *bcInst) string {
+	desc := "bridge list {default->relay100, b7->relay7}; a poll waits; matching lock held; client 150 names b7 and queues on the lock; the list is replaced by {default->relay100}; lock released"
+	var buf bytes.Buffer
+	fmt.Fprintf(&buf, `{"displayName":"b0", "webSocketAddress":"%s", "fingerprint":"%s"}`+"\n", bcURL(100), bcFP(0))
+	fmt.Fprintf(&buf, `{"displayName":"b7", "webSocketAddress":"%s", "fingerprint":"%s"}`+"\n", bcURL(7), bcFP(7))
+	if err := inst.ctx.bridgeList.LoadBridgeInfo(&buf); err != nil {
+		return desc + " (cannot load the bridge list: " + err.Error() + ")"
+	}
+	p := &bcReq{kind: 'P', id: 10, wireNat: "unrestricted", nat: "unrestricted"}
+	inst.start(p)
+	bcWait(func() bool { hu, hr, _, _ := inst.counts(); return hu+hr == 1 }, 5*time.Second)
+	if !inst.lock() {
+		return desc + " (matching lock not available)"
+	}
+	c := &bcReq{kind: 'C', id: 150, wireNat: "unknown", nat: "unknown", fp: 7}
+	inst.start(c)
+	time.Sleep(400 * time.Millisecond) // the client has checked its fingerprint and waits for the lock
+	buf.Reset()
+	fmt.Fprintf(&buf, `{"displayName":"b0", "webSocketAddress":"%s", "fingerprint":"%s"}`+"\n", bcURL(100), bcFP(0))
+	err := inst.ctx.bridgeList.LoadBridgeInfo(&buf)
+	inst.ctx.snowflakeLock.Unlock()
+	if err != nil {
+		return desc + " (cannot reload the bridge list: " + err.Error() + ")"
+	}
+	bcWait(func() bool { return p.isDone() && c.isDone() }, bcTimeout()+bcTimeout())
+	if p.isDone() && p.offerOf == 150 && p.url != bcURL(7) {
+		desc += fmt.Sprintf(" WRONG-BRIDGE: the poll was handed the offer of client 150 (bridge b7) with relay URL %q", p.url)
+	}
+	return desc
+}
+
 var bcScenarios = []bcScenario{
+	{"bridge-list-reloaded-between-check-and-hand-over", bcBridgeReloaded},
+	{"client-goes-away-after-the-match", bcClientGoesAway},
 	{"burst-of-polls-while-lock-held", bcBurstWhileLocked},
 	{"many-waiting-proxies", bcManyWaiting},
 	{"same-sid-repoll-with-other-nat", bcSameSidOtherNat},
@@ -1215,6 +1301,9 @@ func runBrokerScenarios(t *testing.T, r *vh.Run, prop string) {
 		line := "scenario " + sc.name + ": " + o.desc
 		r.Case("scenario/"+sc.name, line, true)
 		if prop == "C02" {
+			if strings.Contains(o.desc, "WRONG-BRIDGE") {
+				r.OracleFail("relay-url-not-of-named-bridge", line, o.real, "the relay URL delivered with an offer is the one configured for the bridge the client named")
+			}
 			if strings.Contains(o.desc, "OFFER-HANDED-TWICE") {
 				r.OracleFail("offer-handed-twice", line, o.real, "an offer is handed to at most one poll, however long that proxy stays silent")
 			}
